@@ -372,10 +372,174 @@ func (c *c02Ctx) dumpDisk(x int, oc *chanstate.OpenChannel) {
 	}
 	sort.Slice(pkgs, func(i, j int) bool { return pkgs[i].Height < pkgs[j].Height })
 	for _, p := range pkgs {
-		fmt.Fprintf(&sb, " F:%d:%s:%s", p.Height, c02Ids(p.Adds), c02Ids(p.SettleFails))
+		// the complete package as a restarted link sees it: state and, for each
+		// of the three filters, encoding / IsFull() / Contains(i) for i < count
+		fmt.Fprintf(&sb, " F:%d:%s:%s:%d:%s:%s:%s", p.Height, c02Ids(p.Adds), c02Ids(p.SettleFails),
+			int(p.State), c02Filter(p.FwdFilter), c02Filter(p.AckFilter), c02Filter(p.SettleFailFilter))
 	}
 	sb.WriteString("\n")
 	c.w.WriteString(sb.String())
+}
+
+// c02Filter prints enc/full/bits of a PkgFilter; every call is guarded.
+func c02Filter(f *channeldb.PkgFilter) string {
+	if f == nil {
+		return "nil"
+	}
+	res := ""
+	func() {
+		defer func() {
+			if r := recover(); r != nil {
+				res = "panic"
+			}
+		}()
+		var b bytes.Buffer
+		if err := f.Encode(&b); err != nil {
+			res = "encerr"
+			return
+		}
+		full := 0
+		if f.IsFull() {
+			full = 1
+		}
+		var bits strings.Builder
+		for i := uint16(0); i < f.Count(); i++ {
+			if f.Contains(i) {
+				bits.WriteByte('1')
+			} else {
+				bits.WriteByte('0')
+			}
+		}
+		bs := bits.String()
+		if bs == "" {
+			bs = "-"
+		}
+		res = fmt.Sprintf("%s/%d/%s", hex.EncodeToString(b.Bytes()), full, bs)
+	}()
+	return res
+}
+
+// linkTick does to node x's forwarding packages what its link does between two
+// state-machine calls, through the same OpenChannel methods and with the
+// packages as a restarted link holds them (freshly loaded): persist the
+// forwarding decision of a locked-in package (SetFwdFilter with the package's
+// own FwdFilter), acknowledge adds / settle-fails in random order (AckAddHtlcs,
+// AckSettleFails).  Packages are not removed here (stream fwdpkg does).  The
+// node is probed first, so every package an operation touches has been dumped.
+func (c *c02Ctx) linkTick(x int, probed bool) {
+	if !probed {
+		c.probe(x)
+	}
+	if c.stop {
+		return
+	}
+	oc, err := c.fetch(x)
+	if err != nil {
+		return
+	}
+	pkgs, err := oc.LoadFwdPkgs()
+	if err != nil || len(pkgs) == 0 {
+		return
+	}
+	live := c.p.Ch[x].channelState
+	name := c02Name(x)
+	guarded := func(f func() error) (res string) {
+		defer func() {
+			if rc := recover(); rc != nil {
+				res = "panic"
+			}
+		}()
+		if err := f(); err != nil {
+			if errors.Is(err, channeldb.ErrCorruptedFwdPkg) {
+				return "corrupted"
+			}
+			return "err"
+		}
+		return "ok"
+	}
+	// pick an operation that has something to do
+	var locked, unackedAdds, unackedSfs []*channeldb.FwdPkg
+	for _, q := range pkgs {
+		if q.State == channeldb.FwdStateLockedIn {
+			locked = append(locked, q)
+		}
+		if len(q.Adds) > 0 && !q.AckFilter.IsFull() {
+			unackedAdds = append(unackedAdds, q)
+		}
+		if len(q.SettleFails) > 0 && !q.SettleFailFilter.IsFull() {
+			unackedSfs = append(unackedSfs, q)
+		}
+	}
+	p := pkgs[c.r.Intn(len(pkgs))]
+	k := c.r.Intn(6)
+	switch {
+	case k < 2 && len(locked) > 0:
+		p, k = locked[c.r.Intn(len(locked))], 0
+	case k < 4 && len(unackedAdds) > 0:
+		p, k = unackedAdds[c.r.Intn(len(unackedAdds))], 2
+	case len(unackedSfs) > 0:
+		p, k = unackedSfs[c.r.Intn(len(unackedSfs))], 4
+	case len(unackedAdds) > 0:
+		p, k = unackedAdds[c.r.Intn(len(unackedAdds))], 2
+	case len(locked) > 0:
+		p, k = locked[c.r.Intn(len(locked))], 0
+	}
+	switch {
+	case k < 2:
+		var idx []string
+		filter := p.FwdFilter
+		res := guarded(func() error {
+			for i := range p.Adds {
+				if c.r.Intn(5) != 0 {
+					idx = append(idx, strconv.Itoa(i))
+				}
+			}
+			c.r.Shuffle(len(idx), func(i, j int) { idx[i], idx[j] = idx[j], idx[i] })
+			for _, s := range idx {
+				i, _ := strconv.Atoi(s)
+				filter.Set(uint16(i))
+			}
+			return live.SetFwdFilter(p.Height, filter)
+		})
+		is := "-"
+		if len(idx) > 0 {
+			is = strings.Join(idx, ",")
+		}
+		c.emit("L %s op=setfwd h=%d idx=%s => %s passed=%s\n", name, p.Height, is, res, c02Filter(filter))
+		c.stats["link_setfwd"]++
+	case k < 4:
+		var refs []channeldb.AddRef
+		var rs []string
+		perm := c.r.Perm(len(p.Adds))
+		for _, i := range perm {
+			if len(refs) < 3 && (!p.AckFilter.Contains(uint16(i)) || c.r.Intn(6) == 0) {
+				refs = append(refs, channeldb.AddRef{Height: p.Height, Index: uint16(i)})
+				rs = append(rs, fmt.Sprintf("%d:%d", p.Height, i))
+			}
+		}
+		if len(refs) == 0 {
+			return
+		}
+		res := guarded(func() error { return live.AckAddHtlcs(refs...) })
+		c.emit("L %s op=ackadd refs=%s => %s\n", name, strings.Join(rs, ","), res)
+		c.stats["link_ackadd"]++
+	default:
+		var refs []channeldb.SettleFailRef
+		var rs []string
+		perm := c.r.Perm(len(p.SettleFails))
+		for _, i := range perm {
+			if len(refs) < 3 && (!p.SettleFailFilter.Contains(uint16(i)) || c.r.Intn(6) == 0) {
+				refs = append(refs, channeldb.SettleFailRef{Source: p.Source, Height: p.Height, Index: uint16(i)})
+				rs = append(rs, fmt.Sprintf("%d:%d", p.Height, i))
+			}
+		}
+		if len(refs) == 0 {
+			return
+		}
+		res := guarded(func() error { return live.AckSettleFails(refs...) })
+		c.emit("L %s op=acksf refs=%s => %s\n", name, strings.Join(rs, ","), res)
+		c.stats["link_acksf"]++
+	}
 }
 
 // liveExtra prints the parts of the live node the C01 dump does not contain.
@@ -445,9 +609,14 @@ func (c *c02Ctx) probe(x int) {
 // after is called after every schedule step.
 func (c *c02Ctx) after() {
 	c.scanQueues()
+	probed := false
 	if c.pProbe <= 1 || c.r.Intn(c.pProbe) == 0 {
 		c.probe(0)
 		c.probe(1)
+		probed = true
+	}
+	if !c.stop && c.r.Intn(3) == 0 {
+		c.linkTick(c.r.Intn(2), probed)
 	}
 	if c.s.dead {
 		c.stop = true
